@@ -74,6 +74,10 @@ def twin_programs(rng, nproc):
     progs = []
     for p_ in range(nproc):
         progs.append([{"kind": "read", "log": "l1"}] * rng.choice([0, 1]) + [sh[p_ % 2]] + [{"kind": "read", "log": "l1"}])
+    # ... and afterwards the first client sends the text it has just submitted ONCE MORE, this time with a signature line under the log's key id
+    # whose bytes are wrong, as a refresh (old size = size): the first rule that applies is "no valid log signature", whatever the text's past
+    again = dict(sh[0]["req"], auth="badsig", old=sh[0]["req"]["n"], pf={"k": "empty"})
+    progs[0] = progs[0] + [{"kind": "update", "log": "l1", "req": again}]
     return progs
 
 
